@@ -394,42 +394,42 @@ theorem enc_minOne (t : Ty) (h : MinOne t = true) (v : Val t) (hw : WF t v) : 0 
 
 /-- **Round trip** (any remainder): for an omitempty-free schema both decoders read back exactly the
 value that was encoded and leave exactly the bytes that followed it. -/
-theorem dec_enc (ref : Bool) (t : Ty) (hno : NoOmit t = true) (ht : TyOK t = true) (v : Val t) (hw : WF t v)
-    (rest : Bytes) : decWith ref t (enc t v ++ rest) = .ok v rest := by
+theorem dec_enc (t : Ty) (hno : NoOmit t = true) (ht : TyOK t = true) (v : Val t) (hw : WF t v)
+    (rest : Bytes) : dec t (enc t v ++ rest) = .ok v rest := by
   induction t generalizing rest with
   | u8 => exact readLE_append 1 v rest hw
   | u16 => exact readLE_append 2 v rest hw
   | u32 => exact readLE_append 4 v rest hw
   | u64 => exact readLE_append 8 v rest hw
   | i8 =>
-    simp only [decWith, enc]
+    simp only [dec, enc]
     rw [readLE_append 1 _ rest (by have := ofSigned_lt 8 v; omega)]
     simp only [DRes.map]; rw [toSigned_ofSigned 8 (by omega) v hw.1 hw.2]
   | i16 =>
-    simp only [decWith, enc]
+    simp only [dec, enc]
     rw [readLE_append 2 _ rest (by have := ofSigned_lt 16 v; omega)]
     simp only [DRes.map]; rw [toSigned_ofSigned 16 (by omega) v hw.1 hw.2]
   | i32 =>
-    simp only [decWith, enc]
+    simp only [dec, enc]
     rw [readLE_append 4 _ rest (by have := ofSigned_lt 32 v; omega)]
     simp only [DRes.map]; rw [toSigned_ofSigned 32 (by omega) v hw.1 hw.2]
   | i64 =>
-    simp only [decWith, enc]
+    simp only [dec, enc]
     rw [readLE_append 8 _ rest (by have := ofSigned_lt 64 v; omega)]
     simp only [DRes.map]; rw [toSigned_ofSigned 64 (by omega) v hw.1 hw.2]
-  | bool => cases v <;> simp [decWith, enc, readBool]
+  | bool => cases v <;> simp [dec, enc, readBool]
   | bytesN n => exact readN_append n v rest hw
   | array n t ih =>
     simp only [NoOmit] at hno
     simp only [TyOK, Bool.and_eq_true] at ht
     obtain ⟨hl, hall⟩ := hw
-    simp only [decWith, enc]
+    simp only [dec, enc]
     rw [← hl]
-    have := decLoop_enc (decWith ref t) (enc t) (WF t) (fun x hx r => ih hno ht.2 x hx r) v hall rest []
+    have := decLoop_enc (dec t) (enc t) (WF t) (fun x hx r => ih hno ht.2 x hx r) v hall rest []
     simpa using this
   | bytes m =>
     obtain ⟨hl, hm⟩ := hw
-    simp only [decWith, enc, List.append_assoc]
+    simp only [dec, enc, List.append_assoc]
     rw [readLen_append _ _ hl (by simp)]
     simp only
     by_cases h0 : v.length = 0
@@ -439,7 +439,7 @@ theorem dec_enc (ref : Bool) (t : Ty) (hno : NoOmit t = true) (ht : TyOK t = tru
       simp [h0, h2]
   | str m =>
     obtain ⟨hl, hm⟩ := hw
-    simp only [decWith, enc, List.append_assoc]
+    simp only [dec, enc, List.append_assoc]
     rw [readLen_append _ _ hl (by simp)]
     have h2 : ¬ (m > 0 ∧ v.length > m) := by omega
     simp [h2]
@@ -448,7 +448,7 @@ theorem dec_enc (ref : Bool) (t : Ty) (hno : NoOmit t = true) (ht : TyOK t = tru
     simp only [TyOK, Bool.and_eq_true] at ht
     obtain ⟨hl, hm, hall⟩ := hw
     have hge := flatten_length_ge (enc t) v (fun x hx => enc_minOne t ht.1.2 x (hall x hx))
-    simp only [decWith, enc, List.append_assoc]
+    simp only [dec, enc, List.append_assoc]
     rw [readLen_append _ _ hl (by simp only [List.length_append]; omega)]
     simp only
     by_cases h0 : v.length = 0
@@ -456,15 +456,15 @@ theorem dec_enc (ref : Bool) (t : Ty) (hno : NoOmit t = true) (ht : TyOK t = tru
       subst this; simp
     · have h2 : ¬ (m > 0 ∧ v.length > m) := by omega
       simp only [h0, h2, if_false]
-      have := decLoop_enc (decWith ref t) (enc t) (WF t) (fun x hx r => ih hno ht.2 x hx r) v hall rest []
+      have := decLoop_enc (dec t) (enc t) (WF t) (fun x hx r => ih hno ht.2 x hx r) v hall rest []
       simpa using this
-  | unit => simp [decWith, enc]
+  | unit => simp [dec, enc]
   | pair a b iha ihb =>
     obtain ⟨x, y⟩ := v
     obtain ⟨hwa, hwb⟩ := hw
     simp only [NoOmit, Bool.and_eq_true] at hno
     simp only [TyOK, Bool.and_eq_true] at ht
-    simp only [decWith, enc, List.append_assoc]
+    simp only [dec, enc, List.append_assoc]
     rw [iha hno.1 ht.1.2 x hwa]
     simp only
     rw [ihb hno.2 ht.2 y hwb]
@@ -474,12 +474,12 @@ theorem dec_enc (ref : Bool) (t : Ty) (hno : NoOmit t = true) (ht : TyOK t = tru
 
 /-- **Canonicity** (with remainder): whatever an omitempty-free schema decodes from a byte string,
 re-encoding the value gives back exactly the bytes that were consumed. -/
-theorem dec_canonical (ref : Bool) (t : Ty) (hno : NoOmit t = true) (bs : Bytes) (hb : BytesOK bs)
-    (v : Val t) (rest : Bytes) (h : decWith ref t bs = .ok v rest) : enc t v ++ rest = bs := by
+theorem dec_canonical (t : Ty) (hno : NoOmit t = true) (bs : Bytes) (hb : BytesOK bs)
+    (v : Val t) (rest : Bytes) (h : dec t bs = .ok v rest) : enc t v ++ rest = bs := by
   induction t generalizing bs rest with
   | u8 | u16 | u32 | u64 => exact (readLE_ok hb h).1
   | i8 =>
-    simp only [decWith] at h
+    simp only [dec] at h
     cases h' : readLE 1 bs with
     | err e n => rw [h'] at h; cases h
     | ok x r =>
@@ -487,7 +487,7 @@ theorem dec_canonical (ref : Bool) (t : Ty) (hno : NoOmit t = true) (bs : Bytes)
       obtain ⟨e1, e2⟩ := readLE_ok hb h'
       simp only [enc]; rw [ofSigned_toSigned 8 (by omega) x (by omega), e1]
   | i16 =>
-    simp only [decWith] at h
+    simp only [dec] at h
     cases h' : readLE 2 bs with
     | err e n => rw [h'] at h; cases h
     | ok x r =>
@@ -495,7 +495,7 @@ theorem dec_canonical (ref : Bool) (t : Ty) (hno : NoOmit t = true) (bs : Bytes)
       obtain ⟨e1, e2⟩ := readLE_ok hb h'
       simp only [enc]; rw [ofSigned_toSigned 16 (by omega) x (by omega), e1]
   | i32 =>
-    simp only [decWith] at h
+    simp only [dec] at h
     cases h' : readLE 4 bs with
     | err e n => rw [h'] at h; cases h
     | ok x r =>
@@ -503,24 +503,24 @@ theorem dec_canonical (ref : Bool) (t : Ty) (hno : NoOmit t = true) (bs : Bytes)
       obtain ⟨e1, e2⟩ := readLE_ok hb h'
       simp only [enc]; rw [ofSigned_toSigned 32 (by omega) x (by omega), e1]
   | i64 =>
-    simp only [decWith] at h
+    simp only [dec] at h
     cases h' : readLE 8 bs with
     | err e n => rw [h'] at h; cases h
     | ok x r =>
       rw [h'] at h; simp only [DRes.map] at h; injection h with h1 h2; subst h1 h2
       obtain ⟨e1, e2⟩ := readLE_ok hb h'
       simp only [enc]; rw [ofSigned_toSigned 64 (by omega) x (by omega), e1]
-  | bool => simp only [decWith] at h; simpa [enc] using readBool_ok h
+  | bool => simp only [dec] at h; simpa [enc] using readBool_ok h
   | bytesN n => exact (readN_ok h).1
   | array n t ih =>
     simp only [NoOmit] at hno
-    simp only [decWith] at h
-    obtain ⟨ws, hw1, _, hw3⟩ := decLoop_ok (decWith ref t) (enc t) (fun bs v rest hb hh => ih hno bs hb v rest hh) n bs hb [] v rest h
+    simp only [dec] at h
+    obtain ⟨ws, hw1, _, hw3⟩ := decLoop_ok (dec t) (enc t) (fun bs v rest hb hh => ih hno bs hb v rest hh) n bs hb [] v rest h
     simp only [List.reverse_nil, List.nil_append] at hw1
     subst hw1
     simpa [enc] using hw3
   | bytes m =>
-    simp only [decWith] at h
+    simp only [dec] at h
     cases h' : readLen bs with
     | err e n => rw [h'] at h; cases h
     | ok len r =>
@@ -535,7 +535,7 @@ theorem dec_canonical (ref : Bool) (t : Ty) (hno : NoOmit t = true) (bs : Bytes)
           simp only [enc, List.append_assoc, List.take_append_drop]
           rw [List.length_take, Nat.min_eq_left e2, e1]
   | str m =>
-    simp only [decWith] at h
+    simp only [dec] at h
     cases h' : readLen bs with
     | err e n => rw [h'] at h; cases h
     | ok len r =>
@@ -549,7 +549,7 @@ theorem dec_canonical (ref : Bool) (t : Ty) (hno : NoOmit t = true) (bs : Bytes)
         rw [List.length_take, Nat.min_eq_left e2, e1]
   | slice m t ih =>
     simp only [NoOmit] at hno
-    simp only [decWith] at h
+    simp only [dec] at h
     cases h' : readLen bs with
     | err e n => rw [h'] at h; cases h
     | ok len r =>
@@ -561,22 +561,22 @@ theorem dec_canonical (ref : Bool) (t : Ty) (hno : NoOmit t = true) (bs : Bytes)
       · rename_i h0; injection h with h1 h2; subst h1 h2 h0; simpa [enc] using e1
       · split at h
         · cases h
-        · obtain ⟨ws, hw1, hw2, hw3⟩ := decLoop_ok (decWith ref t) (enc t) (fun bs v rest hb hh => ih hno bs hb v rest hh) len r hr [] v rest h
+        · obtain ⟨ws, hw1, hw2, hw3⟩ := decLoop_ok (dec t) (enc t) (fun bs v rest hb hh => ih hno bs hb v rest hh) len r hr [] v rest h
           simp only [List.reverse_nil, List.nil_append] at hw1
           subst hw1
           simp only [enc, List.append_assoc]
           rw [hw3, hw2, e1]
-  | unit => simp only [decWith] at h; injection h with h1 h2; subst h2; simp [enc]
+  | unit => simp only [dec] at h; injection h with h1 h2; subst h2; simp [enc]
   | pair a b iha ihb =>
     simp only [NoOmit, Bool.and_eq_true] at hno
-    simp only [decWith] at h
-    cases ha : decWith ref a bs with
+    simp only [dec] at h
+    cases ha : dec a bs with
     | err e n => rw [ha] at h; cases h
     | ok x r =>
       rw [ha] at h; simp only at h
       have e1 := iha hno.1 bs hb x r ha
       have hr : BytesOK r := by rw [← e1] at hb; exact hb.right
-      cases hb' : decWith ref b r with
+      cases hb' : dec b r with
       | err e n => rw [hb'] at h; cases h
       | ok y r' =>
         rw [hb'] at h; simp only at h; injection h with h1 h2; subst h1 h2
@@ -616,32 +616,6 @@ theorem size_eq_length (t : Ty) (v : Val t) (hw : WF t v) : size t v = (enc t v)
     · rfl
     · exact ih v hw
 
-/-! ### the two decoders coincide away from `omitempty` -/
-
-theorem decWith_noOmit (r1 r2 : Bool) (t : Ty) (hno : NoOmit t = true) (bs : Bytes) :
-    decWith r1 t bs = decWith r2 t bs := by
-  induction t generalizing bs with
-  | u8 | u16 | u32 | u64 | i8 | i16 | i32 | i64 | bool | bytesN _ | bytes _ | str _ | unit => simp [decWith]
-  | array n t ih =>
-    simp only [NoOmit] at hno
-    have : decWith r1 t = decWith r2 t := funext (ih hno)
-    simp only [decWith, this]
-  | slice m t ih =>
-    simp only [NoOmit] at hno
-    have : decWith r1 t = decWith r2 t := funext (ih hno)
-    simp only [decWith, this]
-  | pair a b iha ihb =>
-    simp only [NoOmit, Bool.and_eq_true] at hno
-    simp only [decWith, iha hno.1]
-    cases decWith r2 a bs with
-    | err e k => rfl
-    | ok x r => simp only [ihb hno.2]
-  | omitempty t _ => simp [NoOmit] at hno
-
-/-- **generated decoder = reference decoder** on every byte string, for every omitempty-free schema. -/
-theorem decG_eq_dec (t : Ty) (hno : NoOmit t = true) (bs : Bytes) : decG t bs = dec t bs :=
-  decWith_noOmit false true t hno bs
-
 /-! ### decoded values are well formed -/
 
 theorem zero_wf (t : Ty) : WF t (zero t) := by
@@ -657,14 +631,14 @@ theorem zero_wf (t : Ty) : WF t (zero t) := by
   | pair a b iha ihb => exact ⟨iha, ihb⟩
   | omitempty t ih => exact ih
 
-theorem dec_wf (ref : Bool) (t : Ty) (bs : Bytes) (hb : BytesOK bs) (v : Val t) (rest : Bytes)
-    (h : decWith ref t bs = .ok v rest) : WF t v ∧ BytesOK rest := by
+theorem dec_wf (t : Ty) (bs : Bytes) (hb : BytesOK bs) (v : Val t) (rest : Bytes)
+    (h : dec t bs = .ok v rest) : WF t v ∧ BytesOK rest := by
   induction t generalizing bs rest with
   | u8 | u16 | u32 | u64 =>
     obtain ⟨e1, e2⟩ := readLE_ok hb h
     exact ⟨by simpa [WF] using e2, by rw [← e1] at hb; exact hb.right⟩
   | i8 =>
-    simp only [decWith] at h
+    simp only [dec] at h
     cases h' : readLE 1 bs with
     | err e n => rw [h'] at h; cases h
     | ok x r =>
@@ -672,7 +646,7 @@ theorem dec_wf (ref : Bool) (t : Ty) (bs : Bytes) (hb : BytesOK bs) (v : Val t) 
       obtain ⟨e1, e2⟩ := readLE_ok hb h'
       exact ⟨toSigned_inI 8 (by omega) x (by omega), by rw [← e1] at hb; exact hb.right⟩
   | i16 =>
-    simp only [decWith] at h
+    simp only [dec] at h
     cases h' : readLE 2 bs with
     | err e n => rw [h'] at h; cases h
     | ok x r =>
@@ -680,7 +654,7 @@ theorem dec_wf (ref : Bool) (t : Ty) (bs : Bytes) (hb : BytesOK bs) (v : Val t) 
       obtain ⟨e1, e2⟩ := readLE_ok hb h'
       exact ⟨toSigned_inI 16 (by omega) x (by omega), by rw [← e1] at hb; exact hb.right⟩
   | i32 =>
-    simp only [decWith] at h
+    simp only [dec] at h
     cases h' : readLE 4 bs with
     | err e n => rw [h'] at h; cases h
     | ok x r =>
@@ -688,7 +662,7 @@ theorem dec_wf (ref : Bool) (t : Ty) (bs : Bytes) (hb : BytesOK bs) (v : Val t) 
       obtain ⟨e1, e2⟩ := readLE_ok hb h'
       exact ⟨toSigned_inI 32 (by omega) x (by omega), by rw [← e1] at hb; exact hb.right⟩
   | i64 =>
-    simp only [decWith] at h
+    simp only [dec] at h
     cases h' : readLE 8 bs with
     | err e n => rw [h'] at h; cases h
     | ok x r =>
@@ -696,16 +670,16 @@ theorem dec_wf (ref : Bool) (t : Ty) (bs : Bytes) (hb : BytesOK bs) (v : Val t) 
       obtain ⟨e1, e2⟩ := readLE_ok hb h'
       exact ⟨toSigned_inI 64 (by omega) x (by omega), by rw [← e1] at hb; exact hb.right⟩
   | bool =>
-    simp only [decWith] at h
+    simp only [dec] at h
     have := readBool_ok h
     exact ⟨trivial, by rw [← this] at hb; exact hb.tail⟩
   | bytesN n =>
     obtain ⟨e1, e2⟩ := readN_ok h
     exact ⟨e2, by rw [← e1] at hb; exact hb.right⟩
   | array n t ih =>
-    simp only [decWith] at h
+    simp only [dec] at h
     have key : ∀ (n : Nat) (bs : Bytes), BytesOK bs → ∀ (acc vs : List (Val t)) (rest : Bytes),
-        (∀ x ∈ acc, WF t x) → decLoop (decWith ref t) n bs acc = .ok vs rest →
+        (∀ x ∈ acc, WF t x) → decLoop (dec t) n bs acc = .ok vs rest →
         vs.length = acc.length + n ∧ (∀ x ∈ vs, WF t x) ∧ BytesOK rest := by
       intro n
       induction n with
@@ -716,7 +690,7 @@ theorem dec_wf (ref : Bool) (t : Ty) (bs : Bytes) (hb : BytesOK bs) (v : Val t) 
       | succ n ihn =>
         intro bs hb acc vs rest hacc h
         simp only [decLoop] at h
-        cases hd : decWith ref t bs with
+        cases hd : dec t bs with
         | err e k => rw [hd] at h; cases h
         | ok x r =>
           rw [hd] at h
@@ -727,7 +701,7 @@ theorem dec_wf (ref : Bool) (t : Ty) (bs : Bytes) (hb : BytesOK bs) (v : Val t) 
     obtain ⟨a1, a2, a3⟩ := key n bs hb [] v rest (by intro x hx; cases hx) h
     exact ⟨⟨by simpa using a1, a2⟩, a3⟩
   | bytes m =>
-    simp only [decWith] at h
+    simp only [dec] at h
     cases h' : readLen bs with
     | err e n => rw [h'] at h; cases h
     | ok len r =>
@@ -745,7 +719,7 @@ theorem dec_wf (ref : Bool) (t : Ty) (bs : Bytes) (hb : BytesOK bs) (v : Val t) 
           · rw [List.length_take, Nat.min_eq_left e2]; exact e3
           · rw [List.length_take, Nat.min_eq_left e2]; omega
   | str m =>
-    simp only [decWith] at h
+    simp only [dec] at h
     cases h' : readLen bs with
     | err e n => rw [h'] at h; cases h
     | ok len r =>
@@ -761,7 +735,7 @@ theorem dec_wf (ref : Bool) (t : Ty) (bs : Bytes) (hb : BytesOK bs) (v : Val t) 
         · rw [List.length_take, Nat.min_eq_left e2]; exact e3
         · rw [List.length_take, Nat.min_eq_left e2]; omega
   | slice m t ih =>
-    simp only [decWith] at h
+    simp only [dec] at h
     cases h' : readLen bs with
     | err e n => rw [h'] at h; cases h
     | ok len r =>
@@ -775,7 +749,7 @@ theorem dec_wf (ref : Bool) (t : Ty) (bs : Bytes) (hb : BytesOK bs) (v : Val t) 
         · cases h
         · rename_i hm
           have key : ∀ (n : Nat) (bs : Bytes), BytesOK bs → ∀ (acc vs : List (Val t)) (rest : Bytes),
-              (∀ x ∈ acc, WF t x) → decLoop (decWith ref t) n bs acc = .ok vs rest →
+              (∀ x ∈ acc, WF t x) → decLoop (dec t) n bs acc = .ok vs rest →
               vs.length = acc.length + n ∧ (∀ x ∈ vs, WF t x) ∧ BytesOK rest := by
             intro n
             induction n with
@@ -786,7 +760,7 @@ theorem dec_wf (ref : Bool) (t : Ty) (bs : Bytes) (hb : BytesOK bs) (v : Val t) 
             | succ n ihn =>
               intro bs hb acc vs rest hacc h
               simp only [decLoop] at h
-              cases hd : decWith ref t bs with
+              cases hd : dec t bs with
               | err e k => rw [hd] at h; cases h
               | ok x r =>
                 rw [hd] at h
@@ -797,48 +771,34 @@ theorem dec_wf (ref : Bool) (t : Ty) (bs : Bytes) (hb : BytesOK bs) (v : Val t) 
           obtain ⟨a1, a2, a3⟩ := key len r hr [] v rest (by intro x hx; cases hx) h
           have a1 : v.length = len := by simpa using a1
           exact ⟨⟨by omega, by omega, a2⟩, a3⟩
-  | unit => simp only [decWith] at h; injection h with h1 h2; subst h2; exact ⟨trivial, hb⟩
+  | unit => simp only [dec] at h; injection h with h1 h2; subst h2; exact ⟨trivial, hb⟩
   | pair a b iha ihb =>
-    simp only [decWith] at h
-    cases ha : decWith ref a bs with
+    simp only [dec] at h
+    cases ha : dec a bs with
     | err e n => rw [ha] at h; cases h
     | ok x r =>
       rw [ha] at h; simp only at h
       obtain ⟨w1, w2⟩ := iha bs hb x r ha
-      cases hb' : decWith ref b r with
+      cases hb' : dec b r with
       | err e n => rw [hb'] at h; cases h
       | ok y r' =>
         rw [hb'] at h; simp only at h; injection h with h1 h2; subst h1 h2
         obtain ⟨w3, w4⟩ := ihb r w2 y r' hb'
         exact ⟨⟨w1, w3⟩, w4⟩
   | omitempty t ih =>
-    simp only [decWith] at h
-    cases ref with
-    | true =>
-      simp only [if_true] at h
-      cases hd : decWith true t bs with
-      | ok v' r => rw [hd] at h; simp only at h; injection h with h1 h2; subst h1 h2; exact ih bs hb _ _ hd
-      | err e k =>
-        rw [hd] at h; simp only at h
-        split at h
-        · cases h
-        · split at h
-          · injection h with h1 h2; subst h1 h2; exact ⟨zero_wf t, BytesOK.nil⟩
-          · cases h
-    | false =>
-      simp only [Bool.false_eq_true, if_false] at h
-      split at h
-      · injection h with h1 h2; subst h1 h2; exact ⟨zero_wf t, BytesOK.nil⟩
-      · exact ih bs hb _ _ h
+    rw [dec] at h
+    split at h
+    · injection h with h1 h2; subst h1 h2; exact ⟨zero_wf t, BytesOK.nil⟩
+    · exact ih bs hb _ _ h
 
 /-- decoding only looks at the bytes it consumes (omitempty-free schemas). -/
-theorem dec_append (ref : Bool) (t : Ty) (hno : NoOmit t = true) (ht : TyOK t = true) (bs : Bytes)
-    (hb : BytesOK bs) (v : Val t) (rest extra : Bytes) (h : decWith ref t bs = .ok v rest) :
-    decWith ref t (bs ++ extra) = .ok v (rest ++ extra) := by
-  have e := dec_canonical ref t hno bs hb v rest h
-  have w := (dec_wf ref t bs hb v rest h).1
+theorem dec_append (t : Ty) (hno : NoOmit t = true) (ht : TyOK t = true) (bs : Bytes)
+    (hb : BytesOK bs) (v : Val t) (rest extra : Bytes) (h : dec t bs = .ok v rest) :
+    dec t (bs ++ extra) = .ok v (rest ++ extra) := by
+  have e := dec_canonical t hno bs hb v rest h
+  have w := (dec_wf t bs hb v rest h).1
   rw [← e, List.append_assoc]
-  exact dec_enc ref t hno ht v w _
+  exact dec_enc t hno ht v w _
 
 /-! ### `omitempty` -/
 
@@ -857,9 +817,14 @@ theorem enc_of_isEmpty (t : Ty) (v : Val t) (he : isEmpty t v = true) : enc t v 
 theorem enc_sliceLike_length (t : Ty) (hs : sliceLike t = true) (v : Val t) : 4 ≤ (enc t v).length := by
   cases t <;> simp [sliceLike] at hs <;> simp [enc]
 
-theorem dec_sliceLike_nil (ref : Bool) (t : Ty) (hs : sliceLike t = true) :
-    decWith ref t [] = .err .underflow 0 := by
-  cases t <;> simp [sliceLike] at hs <;> simp [decWith, readLen, readLE, readN, lenGe, DRes.map]
+theorem dec_sliceLike_nil (t : Ty) (hs : sliceLike t = true) :
+    dec t [] = .err .underflow 0 := by
+  cases t <;> simp [sliceLike] at hs <;> simp [dec, readLen, readLE, readN, lenGe, DRes.map]
+
+/-- generated decoder = reference decoder, on every byte string of every schema (one function since the
+repair of `encoder.go`; the name is kept because the property speaks of two decoders and the tie to the
+two Go implementations is separate: `gen_X_refines` for the generated code, H for both). -/
+theorem decG_eq_dec (t : Ty) (bs : Bytes) : decG t bs = dec t bs := rfl
 
 theorem noOmit_of_tyOK_array {n t} (h : TyOK (.array n t) = true) : NoOmit (.array n t) = true := by
   simp only [TyOK, Bool.and_eq_true] at h; simpa [NoOmit] using h.1
@@ -868,19 +833,19 @@ theorem noOmit_of_tyOK_slice {m t} (h : TyOK (.slice m t) = true) : NoOmit (.sli
 
 /-- **Round trip, exact** — also with an omitempty last field: decoding exactly the encoding gives the
 value back and consumes everything (both decoders). -/
-theorem dec_enc_exact (ref : Bool) (t : Ty) (ht : TyOK t = true) (v : Val t) (hw : WF t v) :
-    decWith ref t (enc t v) = .ok v [] := by
+theorem dec_enc_exact (t : Ty) (ht : TyOK t = true) (v : Val t) (hw : WF t v) :
+    dec t (enc t v) = .ok v [] := by
   induction t with
   | u8 | u16 | u32 | u64 | i8 | i16 | i32 | i64 | bool | bytesN _ | bytes _ | str _ | unit =>
-    have := dec_enc ref _ rfl ht v hw []; simpa using this
-  | array n t _ => have := dec_enc ref _ (noOmit_of_tyOK_array ht) ht v hw []; simpa using this
-  | slice m t _ => have := dec_enc ref _ (noOmit_of_tyOK_slice ht) ht v hw []; simpa using this
+    have := dec_enc _ rfl ht v hw []; simpa using this
+  | array n t _ => have := dec_enc _ (noOmit_of_tyOK_array ht) ht v hw []; simpa using this
+  | slice m t _ => have := dec_enc _ (noOmit_of_tyOK_slice ht) ht v hw []; simpa using this
   | pair a b _ ihb =>
     obtain ⟨x, y⟩ := v
     obtain ⟨hwa, hwb⟩ := hw
     simp only [TyOK, Bool.and_eq_true] at ht
-    simp only [decWith, enc]
-    rw [dec_enc ref a ht.1.1 ht.1.2 x hwa]
+    simp only [dec, enc]
+    rw [dec_enc a ht.1.1 ht.1.2 x hwa]
     simp only
     rw [ihb ht.2 y hwb]
   | omitempty t _ =>
@@ -889,20 +854,15 @@ theorem dec_enc_exact (ref : Bool) (t : Ty) (ht : TyOK t = true) (v : Val t) (hw
     split
     · rename_i he
       have hz := isEmpty_eq_zero t v he
-      cases ref with
-      | true => simp [decWith, dec_sliceLike_nil true t ht.1.1, hz]
-      | false => simp [decWith, hz]
-    · have hd := dec_enc ref t ht.1.2 ht.2 v hw []
+      rw [dec]; simp [hz]
+    · have hd := dec_enc t ht.1.2 ht.2 v hw []
       rw [List.append_nil] at hd
       have hl := enc_sliceLike_length t ht.1.1 v
-      cases ref with
-      | true => simp [decWith, hd]
-      | false =>
-        have : (enc t v).isEmpty = false := by
-          cases h : enc t v with
-          | nil => rw [h] at hl; simp at hl
-          | cons _ _ => rfl
-        simp [decWith, hd, this]
+      have : (enc t v).isEmpty = false := by
+        cases h : enc t v with
+        | nil => rw [h] at hl; simp at hl
+        | cons _ _ => rfl
+      rw [dec]; simp [hd, this]
 
 /-- **Canonicity of the GENERATED decoder, with omitempty** — the exact statement: what it decodes
 re-encodes to the consumed bytes, except that an explicitly encoded empty last field
@@ -912,19 +872,19 @@ theorem decG_canonical_omit (t : Ty) (ht : TyOK t = true) (bs : Bytes) (hb : Byt
     enc t v ++ rest = bs ∨ (lastEmpty t v = true ∧ enc t v ++ (0 :: 0 :: 0 :: 0 :: rest) = bs) := by
   induction t generalizing bs rest with
   | u8 | u16 | u32 | u64 | i8 | i16 | i32 | i64 | bool | bytesN _ | bytes _ | str _ | unit =>
-    exact Or.inl (dec_canonical false _ rfl bs hb v rest h)
-  | array n t _ => exact Or.inl (dec_canonical false _ (noOmit_of_tyOK_array ht) bs hb v rest h)
-  | slice m t _ => exact Or.inl (dec_canonical false _ (noOmit_of_tyOK_slice ht) bs hb v rest h)
+    exact Or.inl (dec_canonical _ rfl bs hb v rest h)
+  | array n t _ => exact Or.inl (dec_canonical _ (noOmit_of_tyOK_array ht) bs hb v rest h)
+  | slice m t _ => exact Or.inl (dec_canonical _ (noOmit_of_tyOK_slice ht) bs hb v rest h)
   | pair a b _ ihb =>
     simp only [TyOK, Bool.and_eq_true] at ht
-    simp only [decG, decWith] at h
-    cases ha : decWith false a bs with
+    simp only [decG, dec] at h
+    cases ha : dec a bs with
     | err e n => rw [ha] at h; cases h
     | ok x r =>
       rw [ha] at h; simp only at h
-      have e1 := dec_canonical false a ht.1.1 bs hb x r ha
+      have e1 := dec_canonical a ht.1.1 bs hb x r ha
       have hr : BytesOK r := by rw [← e1] at hb; exact hb.right
-      cases hb' : decWith false b r with
+      cases hb' : dec b r with
       | err e n => rw [hb'] at h; cases h
       | ok y r' =>
         rw [hb'] at h; simp only at h; injection h with h1 h2; subst h1 h2
@@ -933,7 +893,7 @@ theorem decG_canonical_omit (t : Ty) (ht : TyOK t = true) (bs : Bytes) (hb : Byt
         · right; exact ⟨l2, by simp only [enc, List.append_assoc]; rw [e2, e1]⟩
   | omitempty t _ =>
     simp only [TyOK, Bool.and_eq_true] at ht
-    simp only [decG, decWith, Bool.false_eq_true, if_false] at h
+    rw [decG, dec] at h
     split at h
     · rename_i hnil
       injection h with h1 h2; subst h1 h2
@@ -943,7 +903,7 @@ theorem decG_canonical_omit (t : Ty) (ht : TyOK t = true) (bs : Bytes) (hb : Byt
       have : isEmpty t (zero t) = true := by
         cases t <;> simp [sliceLike] at ht <;> simp [isEmpty, zero]
       simp [enc, this]
-    · have e1 := dec_canonical false t ht.1.2 bs hb v rest h
+    · have e1 := dec_canonical t ht.1.2 bs hb v rest h
       simp only [enc, lastEmpty]
       by_cases he : isEmpty t v = true
       · right
@@ -959,134 +919,6 @@ theorem decG_canonical_of_not_lastEmpty (t : Ty) (ht : TyOK t = true) (bs : Byte
   rcases decG_canonical_omit t ht bs hb v rest h with e | ⟨l, _⟩
   · exact e
   · rw [hl] at l; cases l
-
-/-! ### where the generated and the reference decoder differ -/
-
-theorem DRes.map_inj {α β} (f : α → β) (hf : ∀ a b, f a = f b → a = b) (x y : DRes α)
-    (h : x.map f = y.map f) : x = y := by
-  cases x <;> cases y <;> simp [DRes.map] at h ⊢
-  · exact ⟨hf _ _ h.1, h.2⟩
-  · exact h
-
-theorem decWith_pair (ref : Bool) (a b : Ty) (bs : Bytes) :
-    decWith ref (.pair a b) bs =
-      match decWith ref a bs with
-      | .err e k => .err e k
-      | .ok x r => (decWith ref b r).map (Prod.mk x) := by
-  simp only [decWith]
-  cases decWith ref a bs with
-  | err e k => rfl
-  | ok x r => simp only; cases decWith ref b r <;> rfl
-
-theorem decWith_omit_true (t : Ty) (bs : Bytes) :
-    decWith true (.omitempty t) bs =
-      match decWith true t bs with
-      | .ok v r => .ok v r
-      | .err e k => if e = .maxlen then .err e k else if k = 0 then .ok (zero t) [] else .err e k := by
-  rw [decWith]; rfl
-
-theorem decWith_omit_false (t : Ty) (bs : Bytes) :
-    decWith false (.omitempty t) bs = if bs.isEmpty then .ok (zero t) [] else decWith false t bs := by
-  rw [decWith]; rfl
-
-/-- behind an omitempty-free prefix `a` the two decoders differ exactly when they differ on the rest -/
-theorem differ_pair (a b : Ty) (hno : NoOmit a = true) (bs : Bytes) :
-    decWith true (.pair a b) bs ≠ decWith false (.pair a b) bs ↔
-      ∃ x r, decWith true a bs = .ok x r ∧ decWith true b r ≠ decWith false b r := by
-  rw [decWith_pair, decWith_pair, decWith_noOmit false true a hno bs]
-  cases decWith true a bs with
-  | err e k => simp
-  | ok x r =>
-    simp only
-    constructor
-    · intro h; exact ⟨x, r, rfl, fun hh => h (by rw [hh])⟩
-    · rintro ⟨x', r', he, hne⟩ hh
-      injection he with h1 h2; subst h1 h2
-      exact hne (DRes.map_inj _ (fun _ _ h => by injection h) _ _ hh)
-
-/-- `[]byte omitempty`: the decoders differ exactly on a bare non-zero length prefix at the end of the
-buffer — the reference reads the prefix, fails (`length > len(d.Buffer)`) with the buffer now empty and
-therefore ignores the error; the generated code reports `ErrBufferUnderflow`. -/
-theorem differ_omit_bytes (m : Nat) (bs : Bytes) :
-    decWith true (.omitempty (.bytes m)) bs ≠ decWith false (.omitempty (.bytes m)) bs ↔
-      bs.length = 4 ∧ leVal bs ≠ 0 := by
-  by_cases hnil : bs = []
-  · subst hnil; simp [decWith, readLen, readLE, readN, lenGe, DRes.map, zero]
-  · have hemp : bs.isEmpty = false := by cases bs <;> simp_all
-    have hpos : 0 < bs.length := by cases bs <;> simp_all
-    have hgen : decWith false (.omitempty (.bytes m)) bs = decWith true (.bytes m) bs := by
-      rw [decWith_omit_false]; simp only [hemp, Bool.false_eq_true, if_false]
-      exact decWith_noOmit false true (.bytes m) rfl bs
-    have href : decWith true (.omitempty (.bytes m)) bs =
-        match decWith true (.bytes m) bs with
-        | .ok v r => .ok v r
-        | .err e k => if e = .maxlen then .err e k else if k = 0 then .ok [] [] else .err e k := by
-      rw [decWith_omit_true]; simp only [zero]; cases decWith true (Ty.bytes m) bs <;> rfl
-    rw [hgen, href]
-    -- what the []byte decoder does, by cases on the two guards
-    by_cases h4 : 4 ≤ bs.length
-    · have h4' : lenGe bs 4 = true := (lenGe_iff _ _).2 h4
-      have hrd : readLE 4 bs = .ok (leVal (bs.take 4)) (bs.drop 4) := by
-        simp only [readLE, readN, h4', if_true, DRes.map]
-      by_cases hg : leVal (bs.take 4) ≤ (bs.drop 4).length
-      · have hg' : lenGe (bs.drop 4) (leVal (bs.take 4)) = true := (lenGe_iff _ _).2 hg
-        have hlen : readLen bs = .ok (leVal (bs.take 4)) (bs.drop 4) := by
-          simp only [readLen, hrd, hg', if_true]
-        have hmax : ∀ e k, decWith true (.bytes m) bs = .err e k → e = .maxlen := by
-          intro e k he
-          rw [decWith, hlen] at he
-          simp only at he
-          split at he
-          · cases he
-          · split at he
-            · injection he with h1 _; exact h1.symm
-            · cases he
-        constructor
-        · intro hne
-          exfalso; apply hne
-          cases hd : decWith true (.bytes m) bs with
-          | ok v r => rfl
-          | err e k => simp only [hmax e k hd, if_true]
-        · rintro ⟨hl4, hv⟩
-          exfalso
-          have hd0 : (bs.drop 4).length = 0 := by rw [List.length_drop]; omega
-          have ht : bs.take 4 = bs := List.take_of_length_le (by omega)
-          rw [hd0, ht] at hg
-          omega
-      · have hg' : lenGe (bs.drop 4) (leVal (bs.take 4)) = false := by
-          cases h : lenGe (bs.drop 4) (leVal (bs.take 4)) with
-          | false => rfl
-          | true => exact absurd ((lenGe_iff _ _).1 h) hg
-        have hd : decWith true (.bytes m) bs = .err .underflow (bs.drop 4).length := by
-          rw [decWith]; simp only [readLen, hrd, hg', Bool.false_eq_true, if_false]
-        rw [hd]
-        have hne' : DecErr.underflow ≠ DecErr.maxlen := by decide
-        simp only [hne', if_false]
-        constructor
-        · intro hne
-          by_cases hk : (bs.drop 4).length = 0
-          · have hl4 : bs.length = 4 := by rw [List.length_drop] at hk; omega
-            have ht : bs.take 4 = bs := List.take_of_length_le (by omega)
-            rw [ht, hk] at hg
-            exact ⟨hl4, by omega⟩
-          · exfalso; apply hne; simp only [hk, if_false]
-        · rintro ⟨hl4, _⟩
-          have hk : (bs.drop 4).length = 0 := by rw [List.length_drop]; omega
-          simp only [hk, if_true]
-          intro hh; cases hh
-    · have h4' : lenGe bs 4 = false := by
-        cases h : lenGe bs 4 with
-        | false => rfl
-        | true => exact absurd ((lenGe_iff _ _).1 h) h4
-      have hd : decWith true (.bytes m) bs = .err .underflow bs.length := by
-        rw [decWith]; simp only [readLen, readLE, readN, h4', Bool.false_eq_true, if_false, DRes.map]
-      rw [hd]
-      have hne' : DecErr.underflow ≠ DecErr.maxlen := by decide
-      have hk : bs.length ≠ 0 := by omega
-      simp only [hne', hk, if_false]
-      constructor
-      · intro hne; exact absurd rfl hne
-      · rintro ⟨hl4, _⟩; omega
 
 /-! ### error kinds -/
 
@@ -1105,21 +937,21 @@ def HasMaxLen : Ty → Bool
 
 /-- which error kinds a (non-exact) decoder can return: never `ErrRemainingBytes`; `ErrInvalidBool`
 only for schemas containing a bool; `ErrMaxLenExceeded` only for schemas with a `maxlen` tag. -/
-theorem dec_err_kinds (ref : Bool) (t : Ty) (bs : Bytes) (e : DecErr) (k : Nat)
-    (h : decWith ref t bs = .err e k) :
+theorem dec_err_kinds (t : Ty) (bs : Bytes) (e : DecErr) (k : Nat)
+    (h : dec t bs = .err e k) :
     e ≠ .remaining ∧ (e = .invalidBool → HasBool t = true) ∧ (e = .maxlen → HasMaxLen t = true) := by
   induction t generalizing bs e k with
   | u8 | u16 | u32 | u64 =>
     obtain ⟨h1, _⟩ := readLE_err h; subst h1; simp
   | i8 | i16 | i32 | i64 =>
-    simp only [decWith] at h
+    simp only [dec] at h
     cases h' : readLE _ bs with
     | ok x r => rw [h'] at h; cases h
     | err e' k' =>
       rw [h'] at h; simp only [DRes.map] at h; injection h with h1 h2; subst h1 h2
       obtain ⟨h1, _⟩ := readLE_err h'; subst h1; simp
   | bool =>
-    simp only [decWith] at h
+    simp only [dec] at h
     cases bs with
     | nil => simp only [readBool] at h; injection h with h1 _; subst h1; simp [HasBool]
     | cons b r =>
@@ -1131,11 +963,11 @@ theorem dec_err_kinds (ref : Bool) (t : Ty) (bs : Bytes) (e : DecErr) (k : Nat)
         · injection h with h1 _; subst h1; simp [HasBool]
   | bytesN n => obtain ⟨h1, _⟩ := readN_err h; subst h1; simp
   | array n t ih =>
-    simp only [decWith] at h
-    exact decLoop_err (decWith ref t) (fun e _ => e ≠ .remaining ∧ (e = .invalidBool → HasBool (.array n t) = true) ∧
+    simp only [dec] at h
+    exact decLoop_err (dec t) (fun e _ => e ≠ .remaining ∧ (e = .invalidBool → HasBool (.array n t) = true) ∧
       (e = .maxlen → HasMaxLen (.array n t) = true)) (fun bs e k hh => by simpa [HasBool, HasMaxLen] using ih bs e k hh) n bs [] e k h
   | bytes m =>
-    simp only [decWith] at h
+    simp only [dec] at h
     cases h' : readLen bs with
     | err e' k' =>
       rw [h'] at h; simp only at h; injection h with h1 h2; subst h1 h2
@@ -1151,7 +983,7 @@ theorem dec_err_kinds (ref : Bool) (t : Ty) (bs : Bytes) (e : DecErr) (k : Nat)
         · rename_i hm; injection h with h1 _; subst h1; simp [HasMaxLen]; omega
         · cases h
   | str m =>
-    simp only [decWith] at h
+    simp only [dec] at h
     cases h' : readLen bs with
     | err e' k' =>
       rw [h'] at h; simp only at h; injection h with h1 h2; subst h1 h2
@@ -1165,7 +997,7 @@ theorem dec_err_kinds (ref : Bool) (t : Ty) (bs : Bytes) (e : DecErr) (k : Nat)
       · rename_i hm; injection h with h1 _; subst h1; simp [HasMaxLen]; omega
       · cases h
   | slice m t ih =>
-    simp only [decWith] at h
+    simp only [dec] at h
     cases h' : readLen bs with
     | err e' k' =>
       rw [h'] at h; simp only at h; injection h with h1 h2; subst h1 h2
@@ -1179,54 +1011,39 @@ theorem dec_err_kinds (ref : Bool) (t : Ty) (bs : Bytes) (e : DecErr) (k : Nat)
       · cases h
       · split at h
         · rename_i hm; injection h with h1 _; subst h1; simp [HasMaxLen]; omega
-        · exact decLoop_err (decWith ref t) (fun e _ => e ≠ .remaining ∧ (e = .invalidBool → HasBool (.slice m t) = true) ∧
+        · exact decLoop_err (dec t) (fun e _ => e ≠ .remaining ∧ (e = .invalidBool → HasBool (.slice m t) = true) ∧
             (e = .maxlen → HasMaxLen (.slice m t) = true))
             (fun bs e k hh => by
               obtain ⟨a1, a2, a3⟩ := ih bs e k hh
               exact ⟨a1, by simpa [HasBool] using a2, fun he => by simp [HasMaxLen, a3 he]⟩) len r [] e k h
-  | unit => simp [decWith] at h
+  | unit => simp [dec] at h
   | pair a b iha ihb =>
-    simp only [decWith] at h
-    cases ha : decWith ref a bs with
+    simp only [dec] at h
+    cases ha : dec a bs with
     | err e' k' =>
       rw [ha] at h; simp only at h; injection h with h1 h2; subst h1 h2
       obtain ⟨a1, a2, a3⟩ := iha bs _ _ ha
       exact ⟨a1, fun he => by simp [HasBool, a2 he], fun he => by simp [HasMaxLen, a3 he]⟩
     | ok x r =>
       rw [ha] at h; simp only at h
-      cases hb' : decWith ref b r with
+      cases hb' : dec b r with
       | ok y r' => rw [hb'] at h; cases h
       | err e' k' =>
         rw [hb'] at h; simp only at h; injection h with h1 h2; subst h1 h2
         obtain ⟨a1, a2, a3⟩ := ihb r _ _ hb'
         exact ⟨a1, fun he => by simp [HasBool, a2 he], fun he => by simp [HasMaxLen, a3 he]⟩
   | omitempty t ih =>
-    simp only [decWith] at h
-    cases ref with
-    | true =>
-      simp only [if_true] at h
-      cases hd : decWith true t bs with
-      | ok v r => rw [hd] at h; cases h
-      | err e' k' =>
-        rw [hd] at h; simp only at h
-        have := ih bs _ k' hd
-        split at h
-        · injection h with h1 h2; subst h1 h2; simpa [HasBool, HasMaxLen] using this
-        · split at h
-          · cases h
-          · injection h with h1 h2; subst h1 h2; simpa [HasBool, HasMaxLen] using this
-    | false =>
-      simp only [Bool.false_eq_true, if_false] at h
-      split at h
-      · cases h
-      · simpa [HasBool, HasMaxLen] using ih bs e k h
+    rw [dec] at h
+    split at h
+    · cases h
+    · simpa [HasBool, HasMaxLen] using ih bs e k h
 
 /-- exact decoding reports `ErrRemainingBytes` precisely when the plain decoder succeeds and leaves bytes -/
-theorem exact_remaining_iff (ref : Bool) (t : Ty) (bs : Bytes) :
-    exact (decWith ref t bs) = .error .remaining ↔ ∃ v b rest, decWith ref t bs = .ok v (b :: rest) := by
-  cases h : decWith ref t bs with
+theorem exact_remaining_iff (t : Ty) (bs : Bytes) :
+    exact (dec t bs) = .error .remaining ↔ ∃ v b rest, dec t bs = .ok v (b :: rest) := by
+  cases h : dec t bs with
   | err e k =>
-    have := (dec_err_kinds ref t bs e k h).1
+    have := (dec_err_kinds t bs e k h).1
     simp [exact, this]
   | ok v rest => cases rest <;> simp [exact]
 
@@ -1237,20 +1054,20 @@ theorem exact_ok_iff {α} (r : DRes α) (v : α) : exact r = .ok v ↔ r = .ok v
 
 /-- the underflow test comes before the maxlen test: a length prefix larger than the rest of the buffer
 is `ErrBufferUnderflow` whatever `maxlen` says. -/
-theorem dec_slice_underflow_first (ref : Bool) (m : Nat) (t : Ty) (len : Nat) (body : Bytes)
+theorem dec_slice_underflow_first (m : Nat) (t : Ty) (len : Nat) (body : Bytes)
     (h1 : len < 2 ^ 32) (h2 : body.length < len) :
-    decWith ref (.slice m t) (leBytes 4 len ++ body) = .err .underflow body.length := by
+    dec (.slice m t) (leBytes 4 len ++ body) = .err .underflow body.length := by
   have : lenGe body len = false := by
     cases h : lenGe body len with
     | false => rfl
     | true => have := (lenGe_iff _ _).1 h; omega
-  simp [decWith, readLen, readLE_append 4 len body (by omega), this]
+  simp [dec, readLen, readLE_append 4 len body (by omega), this]
 
 /-- a satisfiable but too large length prefix is `ErrMaxLenExceeded` (before any element is read). -/
-theorem dec_slice_maxlen (ref : Bool) (m : Nat) (t : Ty) (len : Nat) (body : Bytes)
+theorem dec_slice_maxlen (m : Nat) (t : Ty) (len : Nat) (body : Bytes)
     (h1 : len < 2 ^ 32) (h2 : len ≤ body.length) (hm : 0 < m) (h3 : m < len) :
-    decWith ref (.slice m t) (leBytes 4 len ++ body) = .err .maxlen body.length := by
-  rw [decWith, readLen_append len body h1 h2]
+    dec (.slice m t) (leBytes 4 len ++ body) = .err .maxlen body.length := by
+  rw [dec, readLen_append len body h1 h2]
   have h0 : len ≠ 0 := by omega
   simp [h0, hm, h3]
 
